@@ -1,9 +1,11 @@
-(* Codec/ProofsKids.v — the child-element phase of struct decoding, reasoned field by field
-   (for structs without a>b parent paths).
+(* Codec/ProofsKids.v — the child-element phase of struct decoding, reasoned field by field,
+   including one level of a>b parent paths.
 
-   unmarshal_kids loops over the children and routes each to the FIRST field whose name matches.
-   [absorb_kids f x kids] is what happens to ONE field when element names of fields are distinct;
-   [unmarshal_kids_pointwise] shows the loop computes exactly these per-field results;
+   unmarshal_kids loops over the children and routes each to the FIRST field whose path matches;
+   a child that is the parent element of an a>b field is descended into and its children are
+   routed the same way.  [absorb_kids f x kids] is what happens to ONE field when the keys of the
+   element fields (own name, or the parent name for a>b fields) are distinct;
+   [unmarshal_kids_pointwise] shows the loops compute exactly these per-field results;
    [kids_roundtrip]: reading back the concatenation of the per-field element lists gives each
    field what reading its own list alone gives. *)
 From Coq Require Import List String Bool ZArith Lia.
@@ -16,92 +18,251 @@ Section Kids.
 Variable sch : schema.
 Variable unm : gotype -> value -> xml -> result value.
 
-Definition key_hit (f : field) (nm : string) : bool := is_elem f && String.eqb (eff_name sch f) nm.
+Definition elem_key (f : field) : string :=
+  match x_parents (f_xml f) with p :: _ => p | [] => eff_name sch f end.
 
-Definition no_parents (fs : list field) : bool :=
-  forallb (fun f => negb (is_elem f) || match x_parents (f_xml f) with [] => true | _ => false end) fs.
+Definition key_hit (f : field) (nm : string) : bool := is_elem f && String.eqb (elem_key f) nm.
 
-Definition elem_names (fs : list field) : list string := map (eff_name sch) (filter is_elem fs).
+Definition inner_hit (f : field) (p nm : string) : bool :=
+  is_elem f && match x_parents (f_xml f) with [q] => String.eqb p q | _ => false end
+  && String.eqb (eff_name sch f) nm.
+
+Definition parents_ok (fs : list field) : bool :=
+  forallb (fun f => negb (is_elem f) || match x_parents (f_xml f) with [] | [_] => true | _ => false end) fs.
+
+Definition elem_keys (fs : list field) : list string := map elem_key (filter is_elem fs).
+
+Fixpoint absorb_inner (f : field) (x : value) (p : string) (g : list xml) : result value :=
+  match g with
+  | [] => Ok x
+  | gc :: r =>
+      if inner_hit f p (xname gc)
+      then do v' <- unm (f_type f) x gc; absorb_inner f v' p r
+      else absorb_inner f x p r
+  end.
+
+Definition hit_action (f : field) (x : value) (c : xml) : result value :=
+  match x_parents (f_xml f) with
+  | [] => unm (f_type f) x c
+  | _ => absorb_inner f x (xname c) (xkids c)
+  end.
 
 Fixpoint absorb_kids (f : field) (x : value) (kids : list xml) : result value :=
   match kids with
   | [] => Ok x
   | c :: r =>
       if key_hit f (xname c)
-      then do v' <- unm (f_type f) x c; absorb_kids f v' r
+      then do v' <- hit_action f x c; absorb_kids f v' r
       else absorb_kids f x r
   end.
 
-Lemma path_match_noparents : forall f nm,
-  (negb (is_elem f) || match x_parents (f_xml f) with [] => true | _ => false end) = true ->
-  path_match sch f [] nm = if key_hit f nm then PPerfect else PNone.
+(* ---------- path_match in terms of the hit predicates ---------- *)
+
+Definition fparents_ok (f : field) : bool :=
+  negb (is_elem f) || match x_parents (f_xml f) with [] | [_] => true | _ => false end.
+
+Lemma path_match_top : forall f nm,
+  fparents_ok f = true ->
+  path_match sch f [] nm =
+    if key_hit f nm then (match x_parents (f_xml f) with [] => PPerfect | _ => PPrefix end) else PNone.
 Proof.
-  intros f nm H. unfold path_match, key_hit. destruct (is_elem f) eqn:He; cbn [negb andb orb] in *; [|reflexivity].
-  destruct (x_parents (f_xml f)); [|discriminate]. cbn. destruct (String.eqb (eff_name sch f) nm); reflexivity.
+  intros f nm H. unfold path_match, key_hit, elem_key, fparents_ok in *.
+  destruct (is_elem f) eqn:He; cbn [negb andb orb] in *; [|reflexivity].
+  destruct (x_parents (f_xml f)) as [|q [|q' r]]; try discriminate; cbn.
+  - destruct (String.eqb (eff_name sch f) nm); reflexivity.
+  - destruct (String.eqb q nm); reflexivity.
 Qed.
 
-Lemma nohit_tail_eq : forall fs st st1 nm c,
-  (forall g, In g fs -> key_hit g nm = false) ->
-  Forall3 (fun f x x1 => (if key_hit f nm then unm (f_type f) x c else Ok x) = Ok x1) fs st st1 ->
+Lemma path_match_inner : forall f p nm,
+  fparents_ok f = true ->
+  path_match sch f [p] nm = if inner_hit f p nm then PPerfect else PNone.
+Proof.
+  intros f p nm H. unfold path_match, inner_hit, fparents_ok in *.
+  destruct (is_elem f) eqn:He; cbn [negb andb orb] in *; [|reflexivity].
+  destruct (x_parents (f_xml f)) as [|q [|q' r]]; try discriminate; cbn.
+  - reflexivity.
+  - destruct (String.eqb p q); cbn; [|reflexivity]. destruct (String.eqb (eff_name sch f) nm); reflexivity.
+Qed.
+
+(* ---------- at most one field is hit ---------- *)
+
+Fixpoint uniq (hit : field -> bool) (fs : list field) : Prop :=
+  match fs with
+  | [] => True
+  | f :: r => (hit f = true -> forall g, In g r -> hit g = false) /\ uniq hit r
+  end.
+
+Lemma uniq_of_nodup : forall (hit : field -> bool) k fs,
+  (forall f, hit f = true -> is_elem f = true /\ elem_key f = k) ->
+  nodup_strb (elem_keys fs) = true -> uniq hit fs.
+Proof.
+  intros hit k fs Hk. induction fs as [|f r IH]; intros Hnd; [exact I|].
+  assert (Hnd' : nodup_strb (elem_keys r) = true).
+  { unfold elem_keys in *. cbn [filter] in Hnd. destruct (is_elem f); [|exact Hnd].
+    cbn [map nodup_strb] in Hnd. apply andb_true_iff in Hnd. tauto. }
+  cbn [uniq]. split; [|exact (IH Hnd')].
+  intros Hf g Hg. destruct (hit g) eqn:Hgh; [|reflexivity]. exfalso.
+  destruct (Hk f Hf) as [Hfe Hfk]. destruct (Hk g Hgh) as [Hge Hgk].
+  unfold elem_keys in Hnd. cbn [filter] in Hnd. rewrite Hfe in Hnd. cbn [map nodup_strb] in Hnd.
+  apply andb_true_iff in Hnd. destruct Hnd as [Hnd _]. apply negb_true_iff in Hnd.
+  apply (existsb_eqb_false _ _ Hnd). rewrite Hfk, <- Hgk. apply in_map. apply filter_In. split; assumption.
+Qed.
+
+Lemma uniq_key_hit : forall fs nm, nodup_strb (elem_keys fs) = true -> uniq (fun f => key_hit f nm) fs.
+Proof.
+  intros fs nm. apply uniq_of_nodup with (k := nm). intros f H. unfold key_hit in H.
+  apply andb_true_iff in H. destruct H as [He Hn]. apply String.eqb_eq in Hn. split; assumption.
+Qed.
+
+Lemma inner_hit_key : forall f p nm, inner_hit f p nm = true -> is_elem f = true /\ elem_key f = p.
+Proof.
+  intros f p nm H. unfold inner_hit, elem_key in *. apply andb_true_iff in H. destruct H as [H _].
+  apply andb_true_iff in H. destruct H as [He Hp]. split; [exact He|].
+  destruct (x_parents (f_xml f)) as [|q [|q' r]]; try discriminate. apply String.eqb_eq in Hp. symmetry. exact Hp.
+Qed.
+
+Lemma uniq_inner_hit : forall fs p nm, nodup_strb (elem_keys fs) = true -> uniq (fun f => inner_hit f p nm) fs.
+Proof. intros fs p nm. apply uniq_of_nodup with (k := p). intros f H. exact (inner_hit_key _ _ _ H). Qed.
+
+Lemma inner_hit_key_hit : forall f p nm, inner_hit f p nm = true -> key_hit f p = true.
+Proof.
+  intros f p nm H. destruct (inner_hit_key _ _ _ H) as [He Hk]. unfold key_hit. rewrite He, Hk, String.eqb_refl. reflexivity.
+Qed.
+
+(* ---------- route, one element ---------- *)
+
+Lemma nohit_tail_eq : forall (hit : field -> bool) (act : field -> value -> result value) fs st st1,
+  (forall g, In g fs -> hit g = false) ->
+  Forall3 (fun f x x1 => (if hit f then act f x else Ok x) = Ok x1) fs st st1 ->
   st1 = st.
 Proof.
-  intros fs st st1 nm c Hno H. induction H as [|f x x1 fs' st' st1' Hh Ht IH]; [reflexivity|].
+  intros hit act fs st st1 Hno H. induction H as [|f x x1 fs' st' st1' Hh Ht IH]; [reflexivity|].
   rewrite (Hno f (or_introl eq_refl)) in Hh. inversion Hh; subst. f_equal. apply IH.
   intros g Hg. apply Hno. right. exact Hg.
 Qed.
 
-Lemma route_pointwise : forall fs st st1 c,
-  no_parents fs = true ->
-  nodup_strb (elem_names fs) = true ->
-  Forall3 (fun f x x1 => (if key_hit f (xname c) then unm (f_type f) x c else Ok x) = Ok x1) fs st st1 ->
-  route sch unm fs st [] c = Ok (inl (Some st1)) \/ (route sch unm fs st [] c = Ok (inl None) /\ st1 = st).
+Lemma route_pointwise_gen : forall fs st st1 path c (hit : field -> bool),
+  (forall f, In f fs -> path_match sch f path (xname c) = if hit f then PPerfect else PNone) ->
+  uniq hit fs ->
+  Forall3 (fun f x x1 => (if hit f then unm (f_type f) x c else Ok x) = Ok x1) fs st st1 ->
+  route sch unm fs st path c = Ok (inl (Some st1))
+  \/ (route sch unm fs st path c = Ok (inl None) /\ st1 = st).
 Proof.
-  intros fs st st1 c Hnp Hnd H. induction H as [|f x x1 fs' st' st1' Hh Ht IH].
+  intros fs st st1 path c hit Hpm Hu H. induction H as [|f x x1 fs' st' st1' Hh Ht IH].
   - right. split; reflexivity.
-  - cbn [no_parents forallb] in Hnp. apply andb_true_iff in Hnp. destruct Hnp as [Hnpf Hnp].
-    cbn [route]. rewrite (path_match_noparents _ _ Hnpf).
-    assert (Hnd' : nodup_strb (elem_names fs') = true).
-    { unfold elem_names in *. cbn [filter] in Hnd. destruct (is_elem f); [|exact Hnd].
-      cbn [map nodup_strb] in Hnd. apply andb_true_iff in Hnd. tauto. }
-    destruct (key_hit f (xname c)) eqn:Hhit.
+  - cbn [route]. rewrite (Hpm f (or_introl eq_refl)). cbn [uniq] in Hu. destruct Hu as [Hu1 Hu2].
+    destruct (hit f) eqn:Hhit.
     + left. rewrite Hh. cbn [rbind].
       assert (st1' = st') as ->; [|reflexivity].
-      eapply nohit_tail_eq; [|exact Ht]. intros g Hg. unfold key_hit in *.
-      apply andb_true_iff in Hhit. destruct Hhit as [Hfe Hfn]. apply String.eqb_eq in Hfn.
-      destruct (is_elem g) eqn:Hge; [cbn [andb] | reflexivity].
-      unfold elem_names in Hnd. cbn [filter] in Hnd. rewrite Hfe in Hnd. cbn [map nodup_strb] in Hnd.
-      apply andb_true_iff in Hnd. destruct Hnd as [Hnd _]. apply negb_true_iff in Hnd.
-      pose proof (existsb_eqb_false _ _ Hnd) as Hni.
-      destruct (String.eqb (eff_name sch g) (xname c)) eqn:He; [|reflexivity].
-      apply String.eqb_eq in He. exfalso. apply Hni. rewrite Hfn, <- He. apply in_map. apply filter_In. split; assumption.
-    + inversion Hh; subst x1. destruct (IH Hnp Hnd') as [Hr|[Hr Heq]].
+      eapply nohit_tail_eq with (hit := hit) (act := fun g y => unm (f_type g) y c); [|exact Ht].
+      exact (Hu1 eq_refl).
+    + inversion Hh; subst x1.
+      destruct (IH (fun g Hg => Hpm g (or_intror Hg)) Hu2) as [Hr|[Hr Heq]].
       * left. rewrite Hr. reflexivity.
       * right. rewrite Hr. split; [reflexivity | subst; reflexivity].
 Qed.
 
+(* grandchildren below the parent element p *)
+Lemma gkids_pointwise : forall gk fs st st',
+  parents_ok fs = true ->
+  nodup_strb (elem_keys fs) = true ->
+  forall p,
+  Forall3 (fun f x x' => absorb_inner f x p gk = Ok x') fs st st' ->
+  unmarshal_gkids sch unm fs st [p] gk = Ok st'.
+Proof.
+  induction gk as [|gc r IH]; intros fs st st' Hpo Hnd p H.
+  - cbn in *. apply Forall3_eq in H. subst. reflexivity.
+  - assert (Hex : exists st1,
+      Forall3 (fun f x x1 => (if inner_hit f p (xname gc) then unm (f_type f) x gc else Ok x) = Ok x1) fs st st1 /\
+      Forall3 (fun f x x' => absorb_inner f x p r = Ok x') fs st1 st').
+    { clear IH Hpo Hnd. induction H as [|f x x' fs' st0 st0' Hh Ht IHt].
+      - exists []. split; constructor.
+      - destruct IHt as [st1 [H1 H2]]. cbn [absorb_inner] in Hh.
+        destruct (inner_hit f p (xname gc)) eqn:Hhit.
+        + destruct (unm (f_type f) x gc) as [v'|e] eqn:Hu; cbn [rbind] in Hh; [|discriminate].
+          exists (v' :: st1). split; constructor; auto. rewrite Hhit. exact Hu.
+        + exists (x :: st1). split; constructor; auto. rewrite Hhit. reflexivity. }
+    destruct Hex as [st1 [H1 H2]].
+    cbn [unmarshal_gkids].
+    assert (Hpm : forall f, In f fs -> path_match sch f [p] (xname gc) =
+                                       if inner_hit f p (xname gc) then PPerfect else PNone).
+    { intros f Hf. apply path_match_inner. unfold parents_ok in Hpo. rewrite forallb_forall in Hpo. exact (Hpo f Hf). }
+    destruct (route_pointwise_gen fs st st1 [p] gc (fun f => inner_hit f p (xname gc)) Hpm
+                (uniq_inner_hit _ _ _ Hnd) H1) as [Hr|[Hr Heq]]; rewrite Hr; cbn [rbind].
+    + apply IH; assumption.
+    + subst st1. apply IH; assumption.
+Qed.
+
+Lemma absorb_inner_nohit : forall f p gk x,
+  (forall nm, inner_hit f p nm = false) -> absorb_inner f x p gk = Ok x.
+Proof.
+  intros f p gk. induction gk as [|gc r IH]; intros x H; [reflexivity|].
+  cbn [absorb_inner]. rewrite H. apply IH. exact H.
+Qed.
+
+(* classification of the top-level routing of one child *)
+Lemma route_top : forall fs st st1 c,
+  parents_ok fs = true ->
+  uniq (fun f => key_hit f (xname c)) fs ->
+  Forall3 (fun f x x1 => (if key_hit f (xname c) then hit_action f x c else Ok x) = Ok x1) fs st st1 ->
+  route sch unm fs st [] c = Ok (inl (Some st1))
+  \/ (route sch unm fs st [] c = Ok (inl None) /\ st1 = st)
+  \/ (route sch unm fs st [] c = Ok (inr [xname c])
+      /\ Forall3 (fun f x x1 => absorb_inner f x (xname c) (xkids c) = Ok x1) fs st st1).
+Proof.
+  intros fs st st1 c Hpo Hu H. induction H as [|f x x1 fs' st' st1' Hh Ht IH].
+  - right. left. split; reflexivity.
+  - cbn [parents_ok forallb] in Hpo. apply andb_true_iff in Hpo. destruct Hpo as [Hpf Hpo].
+    cbn [uniq] in Hu. destruct Hu as [Hu1 Hu2].
+    cbn [route]. rewrite (path_match_top _ _ Hpf).
+    destruct (key_hit f (xname c)) eqn:Hhit.
+    + assert (Htail : st1' = st').
+      { eapply nohit_tail_eq with (hit := fun g => key_hit g (xname c)) (act := fun g y => hit_action g y c); [|exact Ht].
+        exact (Hu1 eq_refl). }
+      subst st1'. unfold hit_action in Hh.
+      destruct (x_parents (f_xml f)) as [|q ps] eqn:Hps.
+      * left. rewrite Hh. reflexivity.
+      * right. right. split; [reflexivity|]. constructor; [exact Hh|].
+        clear - Hu1 Ht. specialize (Hu1 eq_refl).
+        induction Ht as [|g y y1 gs ys ys1 Hg Hgs IHg]; constructor.
+        -- rewrite absorb_inner_nohit; [reflexivity|]. intros nm.
+           destruct (inner_hit g (xname c) nm) eqn:E; [|reflexivity].
+           apply inner_hit_key_hit in E. rewrite (Hu1 g (or_introl eq_refl)) in E. discriminate.
+        -- apply IHg. intros g' Hin. apply Hu1. right. exact Hin.
+    + inversion Hh; subst x1.
+      assert (Hin0 : absorb_inner f x (xname c) (xkids c) = Ok x).
+      { apply absorb_inner_nohit. intros nm. destruct (inner_hit f (xname c) nm) eqn:E; [|reflexivity].
+        apply inner_hit_key_hit in E. rewrite Hhit in E. discriminate. }
+      destruct (IH Hpo Hu2) as [Hr|[[Hr Heq]|[Hr Hf3]]].
+      * left. rewrite Hr. reflexivity.
+      * right. left. rewrite Hr. split; [reflexivity | subst; reflexivity].
+      * right. right. rewrite Hr. split; [reflexivity|]. constructor; assumption.
+Qed.
+
 Lemma unmarshal_kids_pointwise : forall kids fs st st',
-  no_parents fs = true ->
-  nodup_strb (elem_names fs) = true ->
+  parents_ok fs = true ->
+  nodup_strb (elem_keys fs) = true ->
   Forall3 (fun f x x' => absorb_kids f x kids = Ok x') fs st st' ->
   unmarshal_kids sch unm fs st [] false kids = Ok st'.
 Proof.
-  induction kids as [|c r IH]; intros fs st st' Hnp Hnd H.
+  induction kids as [|c r IH]; intros fs st st' Hpo Hnd H.
   - cbn in *. apply Forall3_eq in H. subst. reflexivity.
   - assert (Hex : exists st1,
-      Forall3 (fun f x x1 => (if key_hit f (xname c) then unm (f_type f) x c else Ok x) = Ok x1) fs st st1 /\
+      Forall3 (fun f x x1 => (if key_hit f (xname c) then hit_action f x c else Ok x) = Ok x1) fs st st1 /\
       Forall3 (fun f x x' => absorb_kids f x r = Ok x') fs st1 st').
-    { clear IH Hnp Hnd. induction H as [|f x x' fs' st0 st0' Hh Ht IHt].
+    { clear IH Hpo Hnd. induction H as [|f x x' fs' st0 st0' Hh Ht IHt].
       - exists []. split; constructor.
       - destruct IHt as [st1 [H1 H2]]. cbn [absorb_kids] in Hh.
         destruct (key_hit f (xname c)) eqn:Hhit.
-        + destruct (unm (f_type f) x c) as [v'|e] eqn:Hu; cbn [rbind] in Hh; [|discriminate].
+        + destruct (hit_action f x c) as [v'|e] eqn:Hu; cbn [rbind] in Hh; [|discriminate].
           exists (v' :: st1). split; constructor; auto. rewrite Hhit. exact Hu.
         + exists (x :: st1). split; constructor; auto. rewrite Hhit. reflexivity. }
     destruct Hex as [st1 [H1 H2]].
     cbn [unmarshal_kids].
-    destruct (route_pointwise _ _ _ _ Hnp Hnd H1) as [Hr|[Hr Heq]]; rewrite Hr; cbn [rbind].
+    destruct (route_top _ _ _ _ Hpo (uniq_key_hit _ _ Hnd) H1) as [Hr|[[Hr Heq]|[Hr Hf3]]]; rewrite Hr; cbn [rbind].
     + apply IH; assumption.
     + subst st1. apply IH; assumption.
+    + rewrite (gkids_pointwise _ _ _ _ Hpo Hnd _ Hf3). cbn [rbind]. apply IH; assumption.
 Qed.
 
 Lemma absorb_kids_app : forall f k1 k2 x,
@@ -109,7 +270,7 @@ Lemma absorb_kids_app : forall f k1 k2 x,
 Proof.
   intros f k1. induction k1 as [|c r IH]; intros k2 x; [reflexivity|].
   cbn [app absorb_kids]. destruct (key_hit f (xname c)).
-  - destruct (unm (f_type f) x c); cbn [rbind]; [apply IH | reflexivity].
+  - destruct (hit_action f x c); cbn [rbind]; [apply IH | reflexivity].
   - apply IH.
 Qed.
 
@@ -121,12 +282,12 @@ Proof.
 Qed.
 
 (* per-field element lists: [ess] has one list per field, empty for non-element fields, all
-   elements of an element field's list carry the field's name *)
+   elements of an element field's list carry the field's key *)
 Definition own_names (f : field) (es : list xml) : Prop :=
-  if is_elem f then Forall (fun e => xname e = eff_name sch f) es else es = [].
+  if is_elem f then Forall (fun e => xname e = elem_key f) es else es = [].
 
 Lemma kids_roundtrip : forall fs vs bases ess,
-  nodup_strb (elem_names fs) = true ->
+  nodup_strb (elem_keys fs) = true ->
   Forall3 (fun f (vb : value * value) es =>
              own_names f es /\ (is_elem f = true -> absorb_kids f (snd vb) es = Ok (fst vb)))
           fs (combine vs bases) ess ->
@@ -140,16 +301,15 @@ Proof.
   - destruct vs as [|v vs]; [inversion H|]. destruct bases as [|b bases]; [inversion H|].
     cbn [combine] in H. inversion H as [|f' vb es fs' vbs ess' Hh Ht]; subst. cbn [fst snd] in Hh.
     cbn [List.length] in Hlen. injection Hlen as Hlen.
-    assert (Hnd' : nodup_strb (elem_names fs) = true).
-    { unfold elem_names in *. cbn [filter] in Hnd. destruct (is_elem f); [|exact Hnd].
+    assert (Hnd' : nodup_strb (elem_keys fs) = true).
+    { unfold elem_keys in *. cbn [filter] in Hnd. destruct (is_elem f); [|exact Hnd].
       cbn [map nodup_strb] in Hnd. apply andb_true_iff in Hnd. tauto. }
     specialize (IH _ _ _ Hnd' Ht Hlen).
     destruct Hh as [Hown Habs]. cbn [List.concat combine map fst snd].
-    (* names inside the tail lists belong to tail element fields *)
-    assert (Htail_names : forall c, In c (List.concat ess') -> In (xname c) (elem_names fs)).
+    assert (Htail_names : forall c, In c (List.concat ess') -> In (xname c) (elem_keys fs)).
     { clear - Ht. intros c Hin. induction Ht as [|g vb es gs vbs ess Hg Hgs IHg]; [destruct Hin|].
       cbn [List.concat] in Hin. apply in_app_or in Hin. destruct Hg as [Hgo _]. unfold own_names in Hgo.
-      unfold elem_names. cbn [filter]. destruct (is_elem g) eqn:Hge.
+      unfold elem_keys. cbn [filter]. destruct (is_elem g) eqn:Hge.
       - cbn [map]. destruct Hin as [Hin|Hin].
         + left. rewrite Forall_forall in Hgo. symmetry. exact (Hgo _ Hin).
         + right. exact (IHg Hin).
@@ -159,21 +319,20 @@ Proof.
       * rewrite absorb_kids_app, (Habs eq_refl). cbn [rbind]. apply absorb_kids_skip.
         intros c Hin. unfold key_hit. rewrite He. cbn [andb].
         pose proof (Htail_names c Hin) as Hn.
-        unfold elem_names in Hnd. cbn [filter] in Hnd. rewrite He in Hnd. cbn [map nodup_strb] in Hnd.
+        unfold elem_keys in Hnd. cbn [filter] in Hnd. rewrite He in Hnd. cbn [map nodup_strb] in Hnd.
         apply andb_true_iff in Hnd. destruct Hnd as [Hnd _]. apply negb_true_iff in Hnd.
         pose proof (existsb_eqb_false _ _ Hnd) as Hni.
-        destruct (String.eqb (eff_name sch f) (xname c)) eqn:Heq; [|reflexivity].
+        destruct (String.eqb (elem_key f) (xname c)) eqn:Heq; [|reflexivity].
         apply String.eqb_eq in Heq. rewrite Heq in Hni. contradiction.
       * apply absorb_kids_skip. intros c _. unfold key_hit. rewrite He. reflexivity.
-    + (* tail fields skip the head's own elements *)
-      assert (Hskip : forall g, In g fs -> forall c, In c es -> key_hit g (xname c) = false).
+    + assert (Hskip : forall g, In g fs -> forall c, In c es -> key_hit g (xname c) = false).
       { intros g Hg c Hc. unfold key_hit. destruct (is_elem g) eqn:Hge; [cbn [andb] | reflexivity].
         unfold own_names in Hown. destruct (is_elem f) eqn:He; [|subst es; destruct Hc].
         rewrite Forall_forall in Hown. rewrite (Hown _ Hc).
-        unfold elem_names in Hnd. cbn [filter] in Hnd. rewrite He in Hnd. cbn [map nodup_strb] in Hnd.
+        unfold elem_keys in Hnd. cbn [filter] in Hnd. rewrite He in Hnd. cbn [map nodup_strb] in Hnd.
         apply andb_true_iff in Hnd. destruct Hnd as [Hnd _]. apply negb_true_iff in Hnd.
         pose proof (existsb_eqb_false _ _ Hnd) as Hni.
-        destruct (String.eqb (eff_name sch g) (eff_name sch f)) eqn:Heq; [|reflexivity].
+        destruct (String.eqb (elem_key g) (elem_key f)) eqn:Heq; [|reflexivity].
         apply String.eqb_eq in Heq. exfalso. apply Hni. rewrite <- Heq. apply in_map. apply filter_In. split; assumption. }
       clear - IH Hskip. revert IH.
       generalize (map (fun fvb : field * value * value =>
